@@ -323,12 +323,12 @@ func init() {
 		}}
 		p.Quick = []HRun{
 			{Entry: "HarnessC11Chains", Args: []int64{2}, Bound: "github + up to 2 segments (15 names as .name or ['name'], [0], .*) with symbolic letter case on every name, x 15 embeddings (5 sanitising)", Require: []string{"untrusted", "trusted-or-sanitised"}},
-			{Entry: "HarnessC11Two", Args: []int64{1}, Bound: "two chains of up to 1 segment in 4 two-operand shapes", Require: []string{"compared"}},
+			{Entry: "HarnessC11Two", Args: []int64{2}, Bound: "a generic chain of up to 2 segments (names event, commits, foo; [0]; .*) before or after a documented untrusted path in every spelling, in 4 two-operand shapes", Require: []string{"compared"}},
 			{Entry: "HarnessC11Routing", Bound: "the untrusted expression at every scalar position of the full skeleton and in actions/github-script inputs", Require: []string{"script-position", "other-position", "github-script"}},
 		}
 		p.Thorough = []HRun{
 			{Entry: "HarnessC11Chains", Args: []int64{3}, Bound: "github + up to 3 segments x symbolic case x 15 embeddings", Require: []string{"untrusted", "trusted-or-sanitised"}},
-			{Entry: "HarnessC11Two", Args: []int64{2}, Bound: "two chains of up to 2 segments", Require: []string{"compared"}},
+			{Entry: "HarnessC11Two", Args: []int64{3}, Bound: "generic chain of up to 3 segments with a documented path", Require: []string{"compared"}},
 			{Entry: "HarnessC11Routing", Bound: "every scalar position", Require: []string{"script-position", "other-position", "github-script"}},
 		}
 		props["C11"] = p
